@@ -133,32 +133,7 @@ func ruleIDDerivation(w *World, r *Run, rule string) {
 	if n < 3 {
 		r.Undecided(rule, "log.ID call sites", "", fmt.Sprintf("only %d found", n))
 	}
-	// config.NewLog builds {ID: ID(origin), Origin: origin, Verifier: NewVerifier(pk), URL: url}
-	if sums, _, ok := explore(w, r, rule, fnNewLog, 4, 1); ok {
-		fn := w.fn(fnNewLog)
-		nOK := 0
-		for _, s := range sums {
-			if len(s.Rets) != 2 || s.Rets[1].Kind != "nil" {
-				continue
-			}
-			nOK++
-			v := s.Rets[0]
-			good := v.Kind == "structval"
-			if good {
-				got := map[string]*Term{}
-				for _, f := range v.Args {
-					got[f.Name] = f.Args[0]
-				}
-				id, ver := got["ID"], got["Verifier"]
-				good = id != nil && id.Kind == "call" && id.Name == cLogID && id.Args[2] == paramN(fn, 0) && got["Origin"] == paramN(fn, 0) && got["URL"] == paramN(fn, 2) &&
-					ver != nil && ver.Kind == "call" && ver.Name == cNewVerifier && ver.Idx == 1 && ver.Args[2] == paramN(fn, 1)
-			}
-			r.Check(good, rule, fnNewLog+" | Log{ID: ID(origin), Origin: origin, Verifier: verifier(pk), URL: url}", w.pos(s.RetPos), "config.NewLog returns "+short(v.String()))
-		}
-		if nOK == 0 {
-			r.Undecided(rule, fnNewLog, "", "no success path")
-		}
-	}
+	ruleNewLogShape(w, r, rule)
 	ruleConstructorDiscipline(w, r, rule, pConfig, "Log", []string{fnNewLog})
 	// sibling agreement over the feeder registry
 	for _, fp := range feederPkgs {
@@ -218,6 +193,38 @@ func ruleIDDerivation(w *World, r *Run, rule string) {
 		if n == 0 {
 			r.Undecided(rule, fnFeedBastion, "", "no table insertion seen")
 		}
+	}
+}
+
+// ruleNewLogShape: config.NewLog builds {ID: ID(origin), Origin: origin, Verifier: NewVerifier(pk), URL: url} from its
+// parameters unchanged (what the configuration says is what every component gets).
+func ruleNewLogShape(w *World, r *Run, rule string) {
+	sums, _, ok := explore(w, r, rule, fnNewLog, 4, 1)
+	if !ok {
+		return
+	}
+	fn := w.fn(fnNewLog)
+	nOK := 0
+	for _, s := range sums {
+		if len(s.Rets) != 2 || s.Rets[1].Kind != "nil" {
+			continue
+		}
+		nOK++
+		v := s.Rets[0]
+		good := v.Kind == "structval"
+		if good {
+			got := map[string]*Term{}
+			for _, f := range v.Args {
+				got[f.Name] = f.Args[0]
+			}
+			id, ver := got["ID"], got["Verifier"]
+			good = id != nil && id.Kind == "call" && id.Name == cLogID && id.Args[2] == paramN(fn, 0) && got["Origin"] == paramN(fn, 0) && got["URL"] == paramN(fn, 2) &&
+				ver != nil && ver.Kind == "call" && ver.Name == cNewVerifier && ver.Idx == 1 && ver.Args[2] == paramN(fn, 1)
+		}
+		r.Check(good, rule, fnNewLog+" | Log{ID: ID(origin), Origin: origin, Verifier: verifier(pk), URL: url} from the configured values unchanged", w.pos(s.RetPos), "config.NewLog returns "+short(v.String()))
+	}
+	if nOK == 0 {
+		r.Undecided(rule, fnNewLog, "", "no success path")
 	}
 }
 
@@ -419,6 +426,9 @@ func ruleOneWitness(w *World, r *Run, rule string) {
 			}
 			continue
 		}
+		for _, nl := range calls(s, fnNewLog) {
+			r.Check(okBefore(s, nl, 0), "C17.b", fnMain+" | an entry that config.NewLog rejects aborts start-up", w.pos(nl.Pos), "Main carries on although config.NewLog failed for a configured log (the service would run with a zero-value log entry)")
+		}
 		nStarted++
 		key := fnMain + " | one witness instance behind the HTTP API, every feeder, the bastion endpoint and the distributor"
 		if mp.newW == nil || mp.asMap == nil || !okBefore(s, *mp.newW, 0) || !okBefore(s, *mp.asMap, 0) {
@@ -444,6 +454,49 @@ func ruleOneWitness(w *World, r *Run, rule string) {
 		for _, nl := range calls(s, fnNewLog) {
 			sameCfg := anySub(nl.Args[0], func(t *Term) bool { return t.Kind == "field" && t.Name == "Logs" && t.Args[0] == cfgVal })
 			r.Check(sameCfg, rule, fnMain+" | feeder list and witness map describe the same configuration", w.pos(nl.Pos), "config.NewLog iterates a different configuration than the one AsLogMap converts")
+		}
+		// the log list handed to the push components (bastion endpoint, distributor) names every configured log
+		var okLogs []*Term
+		for _, nl := range calls(s, fnNewLog) {
+			if okBefore(s, nl, 0) {
+				okLogs = append(okLogs, res(nl, 0))
+			}
+		}
+		checkList := func(list *Term, where string, pos string) {
+			if list == nil {
+				return
+			}
+			have := map[*Term]bool{}
+			t := list
+			for t.Kind == "append" {
+				for _, el := range t.Args[1:] {
+					if el.Kind == "varargs" {
+						for _, x := range el.Args {
+							have[x] = true
+						}
+					}
+				}
+				t = t.Args[0]
+			}
+			for _, lg := range okLogs {
+				r.Check(have[lg], "C17.b", fnMain+" | "+where+" gets every configured log", pos, "a configured log is in the witness's map but missing from the list given to the "+where+" (witness map and feeder/endpoint list describe different sets of logs)")
+			}
+		}
+		for _, rd := range calls(s, fnRunDist) {
+			if len(rd.Args) >= 5 {
+				checkList(rd.Args[4], "distributor", w.pos(rd.Pos))
+			}
+		}
+		for _, g := range mp.gos {
+			for _, bv := range g.Binds {
+				if bv.Kind == "structval" && strings.HasSuffix(bv.Name, "bastion.Config") {
+					for _, f := range bv.Args {
+						if f.Name == "Logs" {
+							checkList(f.Args[0], "bastion endpoint", w.pos(g.Pos))
+						}
+					}
+				}
+			}
 		}
 		ns := calls(s, fnNewServer)
 		r.Check(len(ns) == 1 && ns[0].Args[0] == W, rule, fnMain+" | HTTP API serves that witness", w.pos(s.RetPos), "the HTTP server is not built on the witness that the feeders update")
